@@ -65,7 +65,7 @@ def run(model, col, tier):
             if status == "raise":
                 from ..paths import cond_atoms
 
-                atoms = {k: v for k, v in cond_atoms(evs).items() if " and " not in k and " or " not in k}
+                atoms = {k: v for k, v in cond_atoms(evs).items() if " and " not in k and " or " not in k and not k.endswith(" is None")}
                 # the refusal may depend on nothing but `obj` being an instruction
                 if all(k.startswith("isinstance(") and k.endswith("Instruction)") and v for k, v in atoms.items()):
                     dflt_raises_for_instr = True
